@@ -196,10 +196,15 @@ CONTRACTS = CONTRACTS + [
 SCORES_OK = ("forall(lambda v: forall(lambda j: scores[v][j] >= 0 and implies(scores[v][j] > 0, acc0[v][j] >= 0), 0, 4), 0, ipow(4, observed_length), "
              "lambda v: scores[v])")
 CONTRACTS = CONTRACTS + [
+    dict(name="dsw.graphized.obtain_leaf_vertices", abstract=True,
+         dispatch={"param": "accessor", "Mat": "dsw.graphized.obtain_leaf_vertices#accessor", "NoneV": "dsw.graphized.obtain_leaf_vertices#latter-map",
+                   "fallback": "dsw.graphized.obtain_leaf_vertices#some-array"}),
     dict(
-        # ASSUMED: the leaf query returns some 1-D integer array and modifies nothing (its value - the end points of depth-step walks - is C14's
-        # bounded clause); only the lengths of unions of such arrays enter the scores
-        name="dsw.graphized.obtain_leaf_vertices", assumed=True, n_loops=0,
+        # used where the caller carries no ghost description of the graph (inside calculate_intersection_score): ASSUMED there - the leaf query returns
+        # some 1-D integer array and modifies nothing; only the lengths of unions of such arrays enter the scores.  (The precise contracts
+        # #accessor / #latter-map below are verified on the real function.)
+        name="dsw.graphized.obtain_leaf_vertices#some-array", function="dsw.graphized.obtain_leaf_vertices", variant_of="dsw.graphized.obtain_leaf_vertices",
+        assumed=True, n_loops=5,
         params={"vertex_index": "int", "depth": "int", "accessor": "none", "latter_map": "dict"},
         requires={}, returns="nd_int", ensures={"an-array": "len(result) >= 0"}, raises={},
     ),
@@ -268,3 +273,40 @@ CONTRACTS = CONTRACTS + [
             "order": "observed_length == k"})},
     ),
 ]
+
+
+# ------------------------------------------------------------------ C14: leaf queries = end points of all depth-step walks, from either representation
+LEAF_OUTER = {"length": "len(branch) == levn(G, vertex_index, _i)",
+              "entries": "forall(lambda p: branch[p] == lev(G, vertex_index, _i, p) and 0 <= branch[p] and branch[p] < ipow(4, k), 0, len(branch), lambda p: branch[p])"}
+LEAF_INNER = {"length": "len(level) == fmn(G, branch, _i) and len(level) >= 0",
+              "entries": "forall(lambda p: level[p] == fm(G, branch, _i, p) and 0 <= level[p] and level[p] < ipow(4, k), 0, len(level), lambda p: level[p])"}
+LEAF_STEP = ("fm_ext(A2(G), A(branch_h), P(branch_h, 0), levarr(G, vertex_index, step), 0, len(branch_h))\n"
+             "assert len(level) == levn(G, vertex_index, step + 1), 'next-level-length'")
+
+
+def leaf_variant(via_map):
+    G = "acc0" if via_map else "accessor"
+    fix = lambda d: {k_: v_.replace("G", G) for k_, v_ in d.items()}
+    ghost = {"entry": "ipow_mono(4, 0, k)",
+             "loop1_begin" if not via_map else "loop3_begin": "branch_h = branch",
+             "loop2_begin" if not via_map else "loop4_begin": "mark(former_index)\n" + "".join("if %s[former_index][%d] >= 0:\n    pass\n" % (G, j) for j in range(4)),
+             "after_loop2" if not via_map else "after_loop4": LEAF_STEP.replace("G", G)}
+    return dict(
+        name="dsw.graphized.obtain_leaf_vertices#" + ("latter-map" if via_map else "accessor"), function="dsw.graphized.obtain_leaf_vertices",
+        variant_of="dsw.graphized.obtain_leaf_vertices", n_loops=5,
+        ghost_params={"k": "nat", "acc0": "mat(ipow(4, k), 4)"} if via_map else {"k": "nat"},
+        params={"vertex_index": "nat", "depth": "nat", "accessor": "none" if via_map else "mat(ipow(4, k), 4)", "latter_map": "dict" if via_map else "none"},
+        requires=({"graph": "k >= 1 and is_accessor(acc0, k)", "describes-acc0": "lm_of(latter_map, acc0, k)", "vertex": "vertex_index < ipow(4, k)"} if via_map else
+                  {"graph": "k >= 1 and is_accessor(accessor, k)", "vertex": "vertex_index < ipow(4, k)"}),
+        returns="nd_int",
+        # lev(G, v, d, p) / levn(G, v, d): the end points of the d-step walks from v, breadth first, successors in A<C<G<T order (recursive spec)
+        ensures={"as-many-as-walks": ("len(result) == levn(%s, vertex_index, depth)" % G),
+                 "their-end-points": ("forall(lambda p: result[p] == lev(%s, vertex_index, depth, p), 0, len(result), lambda p: result[p])" % G)},
+        raises={},
+        ghost=ghost,
+        loops=({3: dict(binds="range(depth)", invariant=fix(LEAF_OUTER)), 4: dict(binds="branch", invariant=fix(LEAF_INNER))} if via_map else
+               {1: dict(binds="range(depth)", invariant=fix(LEAF_OUTER)), 2: dict(binds="branch", invariant=fix(LEAF_INNER))}),
+    )
+
+
+CONTRACTS = CONTRACTS + [leaf_variant(False), leaf_variant(True)]
